@@ -264,7 +264,7 @@ def random_cases(draw):
         "sort_keys": draw(st.booleans()),
         "ensure_ascii": draw(st.booleans()),
         "separators": draw(st.sampled_from(sorted(SEPARATORS))),
-        "maxlevel": draw(st.one_of(st.none(), st.none(), st.integers(0, 5))),
+        "maxlevel": draw(st.one_of(st.none(), st.none(), st.integers(0, 5), st.integers(0, 5), st.sampled_from([0.5, 1.5, 2.5]))),
         "pairs_hook": draw(st.booleans()),
         "explicit_importer": draw(st.booleans()),
         "encoder": draw(st.sampled_from([None, None, None, "encode", "default"])),
